@@ -35,4 +35,5 @@ var verifHarnesses = map[string]func(){
 	"VerifC13Frame": VerifC13Frame,
 	"VerifC01QueueVSC": VerifC01QueueVSC,
 	"VerifC01SendVSC": VerifC01SendVSC,
+	"VerifC20BeginBlockMany": VerifC20BeginBlockMany,
 }
